@@ -58,7 +58,11 @@ CHECKS['C11'] = dict(level='model_checking', ref='DESIGN.md 3.3, 6 (C11)',
 CHECKS['C12'] = dict(level='exploration', ref='DESIGN.md 3.3, 6 (C12)',
    text='IndexOps.tla is an insertion-ordered dictionary as pure operators. Random histories over native and composite keys, inline and file values, all mapping methods, views in both directions, ordered/unordered equality, reopen/pickle (via Index / FanoutCache.index / DjangoCache.index) are validated by TLC against it, and the same plans through OrderedDict validate the spec; 2-3 client programs (lookup, replace inline<->file, setdefault, popitem, pop, delete) are scheduler-enumerated and validated at each COMMIT (PresentKeyAlwaysFound with the listed known finding).',
    technique='trace validation by TLC against a TLA+ ordered-dictionary spec (sequential, stdlib cross-check, scheduled concurrency)')
-NOTES = {'C11': CONC_NOTE, 'C12': CONC_NOTE + ' No exhaustive TLC exploration of the Index composition yet (level exploration).', 'C14': CONC_NOTE, 'C07': 'Trusted: SQLite atomic commit / WAL recovery and release of the write lock on process death; kill points are the boundary events of the victim (before each statement, file create/write/close/remove, directory create/remove); the lazy cull of writes is switched off in kill workloads (not observable per call). Deque/Index workloads are killed in C11/C12.', 'C08': CONC_NOTE + ' Faults are not injected into COMMIT/ROLLBACK (SQLite atomic commit trusted) nor into file removal (removing an existing file is assumed to succeed).', 'C05': CONC_NOTE, 'C06': CONC_NOTE, 'C03': SEQ_NOTE, 'C04': SEQ_NOTE, 'C09': SEQ_NOTE, 'C10': SEQ_NOTE}
+CHECKS['C13'] = dict(level='exploration', ref='DESIGN.md 3.4, 6 (C13)',
+   text='FanoutTrace.tla: N CacheOps states + the observed routing function; key-addressed calls are the CacheOps step on the routed shard, aggregates (len, clear, expire, evict, cull, stats, iteration both ways) are folds over all shards exactly once, the size limit is total/N. Random histories on 1/2/3/8/13 shards with the projection of every shard after every call are validated by TLC. '
+        'Routing: the shard of 62 keys (ints incl. 64-bit boundaries, floats, text, bytes, composite) is computed in fresh interpreters with different PYTHONHASHSEED values, compared with each other and with the table recorded from the released version (fixtures/routing.json); numerically equal int/float keys landing in different shards are the listed known finding.',
+   technique='trace validation by TLC against a TLA+ sharded-cache spec; routing tables compared across interpreters and with a recorded fixture')
+NOTES = {'C13': SEQ_NOTE + ' Aggregate operations under lock timeouts (FanoutCache._remove resuming after Timeout) are only covered with one shard (C14).', 'C11': CONC_NOTE, 'C12': CONC_NOTE + ' No exhaustive TLC exploration of the Index composition yet (level exploration).', 'C14': CONC_NOTE, 'C07': 'Trusted: SQLite atomic commit / WAL recovery and release of the write lock on process death; kill points are the boundary events of the victim (before each statement, file create/write/close/remove, directory create/remove); the lazy cull of writes is switched off in kill workloads (not observable per call). Deque/Index workloads are killed in C11/C12.', 'C08': CONC_NOTE + ' Faults are not injected into COMMIT/ROLLBACK (SQLite atomic commit trusted) nor into file removal (removing an existing file is assumed to succeed).', 'C05': CONC_NOTE, 'C06': CONC_NOTE, 'C03': SEQ_NOTE, 'C04': SEQ_NOTE, 'C09': SEQ_NOTE, 'C10': SEQ_NOTE}
 
 checks = []
 for pid, c in sorted(CHECKS.items()):
